@@ -92,7 +92,7 @@ class Lexical(UsesState, HasLabel, Generic[ParentType], ABC):
         if (
             self._parent is not None
             and new_parent is not self._parent
-            and self in self._parent.children
+            and self in self._parent.children.inv
         ):
             self._parent.remove_child(self)
         self._parent = new_parent
